@@ -213,6 +213,8 @@ pub struct Dir {
     pub read_conn_err: Option<ConnFault>,
     pub deliveries: u32,
     pub first_frame_seen: bool,
+    /// reads answered after the stream had reported its end (FIN or RESET)
+    pub terminal_reads: u32,
 }
 
 #[derive(Default, Debug)]
@@ -794,6 +796,12 @@ fn poll_open(net: &Shared, side: u8, uni: bool, cx: &mut Context<'_>) -> Poll<Re
         *c -= 1;
     }
     let idx = if uni { st.next_uni } else { st.next_bi };
+    let opened_so_far = if uni { st.opened_uni.len() } else { st.opened_bi.len() };
+    if opened_so_far >= if uni { 256 } else { 4096 } {
+        // an endpoint that opens streams without end (each one takes an id and the peer's credit): refuse, record
+        n.contract.push(format!("side {side}: more than {} {} streams opened on one connection (streams opened without end)", opened_so_far, if uni { "unidirectional" } else { "bidirectional" }));
+        return Poll::Ready(Err(StreamErrorIncoming::Unknown(Box::new(SimErr("runaway open")))));
+    }
     if uni {
         st.next_uni += 1
     } else {
@@ -1087,6 +1095,17 @@ impl quic::RecvStream for SimRecv {
             }
             return Poll::Ready(Ok(Some(SimBuf::One(b))));
         }
+        // every answer from here on is terminal or Pending; a caller that keeps asking an ended stream without ever
+        // returning is spinning inside one poll, which no step cap can interrupt: break out of it with a panic that
+        // the executors report as the caller's (exec::PanicInfo::in_harness knows the marker)
+        if d.reset_delivered || d.fin_delivered {
+            d.terminal_reads += 1;
+            if d.terminal_reads > 20_000 {
+                let id = self.id;
+                drop(n);
+                panic!("RUNAWAY: stream {id} was read 20000 times after it had reported its end (busy loop in the caller)");
+            }
+        }
         if let Some(f) = &d.read_conn_err {
             obs::count("fault.connection_error_reported_on_a_stream_first");
             return Poll::Ready(Err(f.to_stream()));
@@ -1096,7 +1115,9 @@ impl quic::RecvStream for SimRecv {
         }
         if d.fin_delivered {
             d.fin_read = true;
-            obs::ev("read_fin", self.id, 0);
+            if d.terminal_reads <= 8 {
+                obs::ev("read_fin", self.id, 0);
+            }
             return Poll::Ready(Ok(None));
         }
         if let Some(f) = fault {
